@@ -521,7 +521,7 @@ TreesOf(RS, LS, MS, M2, n, kids) ==
 \* ZTop (root level) / ZSub (below) or nothing; plus inputs=None.  "Nothing" (the key is left out) and None (the key is
 \* there and holds None) are different instances: LeafVals / ZTop / ZSub may contain NoneV.  NoneV in NsBad = None given
 \* for a declared namespace: PortNamespace.validate reads it as {} and pre_process leaves it in place, so `inputs.<ns>` is
-\* None where FrozenOK / ParsedOK demand a completed read-only mapping; the harness keeps that instance class switched off
+\* None where FrozenOK / ParsedOK demand a completed read-only mapping (repaired in /repo: pre_process drops the key);
 \* (ports_model.NONE_FOR_NAMESPACE) until the library is repaired or the behaviour is a listed finding.
 RECURSIVE DictsFor(_, _, _, _, _, _), DictLoop(_, _, _, _, _, _, _)
 DictLoop(ns, i, depth, LeafVals, NsBad, ZTop, ZSub) ==
